@@ -132,17 +132,15 @@ Definition resolve (f : fs) (l : loc) : option node :=
 
 Definition tmp_dir : path := [bs "tmp"].
 
-Fixpoint fresh_from (f : fs) (fuel : nat) (i : N) : name :=
-  let n := x54 :: dec_of_N i in          (* "T<i>" *)
-  match fuel with
-  | O => n
-  | S fuel' =>
-      match lookup f (InCache (tmp_dir ++ [n])) with
-      | None => n
-      | Some _ => fresh_from f fuel' (i + 1)
-      end
+(* a temp name that no file under tmp/ has: strictly longer than every existing one (real names are random;
+   every comparison canonicalises them) *)
+Fixpoint tmp_names (f : fs) : list name :=
+  match f with
+  | [] => []
+  | (InCache [t; n], _) :: r => if bytes_eqb t (bs "tmp") then n :: tmp_names r else tmp_names r
+  | _ :: r => tmp_names r
   end.
-Definition fresh (f : fs) : name := fresh_from f (List.length f) 0.
+Definition fresh (f : fs) : name := x54 :: List.concat (tmp_names f).
 
 Definition zeros (n : N) : bytes := N.iter n (fun l => x00 :: l) [].
 
